@@ -1,0 +1,128 @@
+// Copyright (C) 2026 Storj Labs, Inc.
+// See LICENSE for copying information.
+
+//go:build verif
+
+package drpcsignal
+
+// Machine-checked contracts for this package (read by /verif/govc; comment-only).
+//
+// Signal: mu protects status, ch, err; status is additionally published with atomic stores so
+// that lock-free readers can use it. Three kinds of facts are checked:
+//   invariant  - holds whenever mu is free (assumed at Lock, asserted at Unlock)
+//   published  - holds at every instant, also in the middle of a critical section: asserted after
+//                every single write to a protected field (this is what orders "set err, set ch,
+//                store flags, close")
+//   guarantee  - relates the state before and after every single write: what lock-free readers
+//                may rely on (flags only gain bits, err and ch are frozen once published)
+
+//@ spec sigES(v uint32) bool = (v & 2) != 0
+//@ spec sigCC(v uint32) bool = (v & 1) != 0
+
+//@ axiom closed(closed) && closed != nil
+
+//@ monitor Signal.mu
+//@   protects status, ch, err
+//@   atomic status
+//@   chans ch
+//@   invariant [range]    self.status <= 3
+//@   invariant [es-cc]    sigES(self.status) ==> sigCC(self.status)
+//@   invariant [cc-ch]    sigCC(self.status) ==> self.ch != nil
+//@   invariant [open]     sigCC(self.status) && !sigES(self.status) ==> !closed(self.ch)
+//@   invariant [done]     sigES(self.status) ==> closed(self.ch)
+//@   published [p-range]  self.status <= 3
+//@   published [p-cc]     sigCC(self.status) ==> self.ch != nil
+//@   published [p-es]     sigES(self.status) ==> sigCC(self.status)
+//@   published [p-close]  sigCC(self.status) && closed(self.ch) ==> sigES(self.status)
+//@   guarantee [g-bits]   (sigES(old(self.status)) ==> sigES(self.status)) && (sigCC(old(self.status)) ==> sigCC(self.status))
+//@   guarantee [g-err]    sigES(old(self.status)) ==> self.err == old(self.err)
+//@   guarantee [g-ch]     sigCC(old(self.status)) ==> self.ch == old(self.ch)
+//@   guarantee [g-closed] sigCC(old(self.status)) && closed(old(self.ch)) ==> closed(self.ch)
+
+//@ func (*Signal).Signal
+//@   props C19
+//@   ensures [chan] result != nil && result == s.ch && sigCC(s.status)
+
+//@ func (*Signal).signalSlow
+//@   props C19
+//@   ensures [chan] result != nil && result == s.ch && sigCC(s.status)
+
+//@ func (*Signal).Set
+//@   props C19
+//@   ensures [set]    sigES(s.status) && sigCC(s.status) && s.ch != nil
+//@   ensures [winner] ok ==> s.err == err
+
+// exactly one setter wins: the winner is the call that performs the ErrorSet transition under the
+// lock; the guarantee [g-bits] (no step ever clears the bit) makes that transition unique.
+//@ func (*Signal).setSlow
+//@   props C19
+//@   ghost after:(*Mutex).Lock st0 = s.status
+//@   ghost entry st0 = 0
+//@   check   [transition] ok == !sigES(st0)
+//@   ensures [set]        sigES(s.status) && sigCC(s.status) && s.ch != nil
+//@   ensures [winner]     ok ==> s.err == err
+
+//@ func (*Signal).Get
+//@   props C19
+//@   ensures [seen] result1 ==> sigES(s.status) && result0 == s.err
+//@   ensures [none] !result1 ==> result0 == nil
+
+//@ func (*Signal).IsSet
+//@   props C19
+//@   ensures [seen] result ==> sigES(s.status)
+
+//@ func (*Signal).Err
+//@   props C19
+//@   ensures [seen] result != nil ==> sigES(s.status) && result == s.err
+
+//@ func (*Signal).Wait
+//@   props C19
+
+// Chan: mu protects done and ch; done is published with an atomic store (deferred, so that it
+// happens after the initialiser ran). The closed state of the channel is NOT owned by the monitor:
+// closing is the job of the single owner that calls Close.
+
+//@ monitor Chan.mu
+//@   protects done, ch
+//@   atomic done
+//@   invariant [range]  self.done <= 1
+//@   published [p-ch]   self.done != 0 ==> self.ch != nil
+//@   published [p-rng]  self.done <= 1
+//@   guarantee [g-done] old(self.done) != 0 ==> self.done == old(self.done)
+//@   guarantee [g-ch]   old(self.done) != 0 ==> self.ch == old(self.ch)
+//@   rely [single-closer] old(self.done) == 0 && self.done != 0 ==> !closed(self.ch)
+
+//@ func (*Chan).do
+//@   inline
+//@ func (*Chan).doSlow
+//@   inline
+//@ func (*Chan).setFresh
+//@   inline
+//@ func (*Chan).setClosed
+//@   inline
+
+//@ func (*Chan).Get
+//@   props C19
+//@   ensures [chan] result != nil && result == c.ch && c.done == 1
+
+//@ func (*Chan).Make
+//@   props C19
+//@   ensures [made] c.ch != nil && c.done == 1
+
+//@ func (*Chan).Send
+//@   props C19
+//@   ensures [made] c.ch != nil && c.done == 1
+
+//@ func (*Chan).Recv
+//@   props C19
+//@   ensures [made] c.ch != nil && c.done == 1
+
+//@ func (*Chan).Full
+//@   props C19
+//@   ensures [made] c.ch != nil && c.done == 1
+
+// Close may be called at most once, and only by the owner: a second Close closes a closed channel.
+//@ func (*Chan).Close
+//@   props C19
+//@   requires [once] c.done == 0 || !closed(c.ch)
+//@   ensures [closed] c.ch != nil && c.done == 1 && closed(c.ch)
